@@ -1,6 +1,11 @@
 """C11 — syntax errors are well-formed and point into the offending source."""
 from __future__ import annotations
 
+import keyword
+import os
+import pathlib
+import re
+import tempfile
 from typing import Any
 
 from ..explore import layout
@@ -16,15 +21,23 @@ RULE = (
     "every input of the lexeme-sequence trees (python and xonsh vocabularies), carriers, abstract-grammar paths, layout "
     "deviations, token-edit neighbourhoods of the python and xonsh corpora and the pylay character space, plus the "
     "'layout lift': each rejected short input re-rendered with its brackets spread over lines, blank/comment lines and a "
-    "multi-line string inside the span, first/last in a 3-statement file; py_version-gated syntax under low versions. "
+    "multi-line string inside the span, first/last in a 3-statement file (also after f-string debug fields, which read the source-line table); the 'diagnostics' family: each "
+    "erroneous snippet of the repository's own error tests (334, frozen in corpus/errors.json), plain in every such context and with each of its "
+    "first identifiers replaced by six operand shapes that span lines (last line longer than the first), through parse_string and parse_file; "
+    "py_version-gated syntax under low versions. "
     "Whenever SyntaxError/IndentationError is raised: message, file name, 1<=lineno<=lines+1, 1<=offset<=len(line)+1, "
     "end>=start, text begins with the source line. Non-trivial = a SyntaxError was raised (distinct texts)."
 )
-BOUND = {t: _diff.describe(t, USE, VOCABS, SHIFT, 2, 12_000) + "; layout lift of E-TOK expr/stmt/xsh/lit n<=" + ("2" if t == "quick" else "3") + "; indentation strings {tab,space,a,newline}^<=" + ("7" if t == "quick" else "9") + " in an if-block; nasty_ff^<=" + ("3" if t == "quick" else "4") + " inside a multi-line string / f-string / bracket followed by an error" for t in ("quick", "thorough")}
+BOUND = {t: _diff.describe(t, USE, VOCABS, SHIFT, 2, 12_000) + "; layout lift of E-TOK expr/stmt/xsh/lit n<=" + ("2" if t == "quick" else "3") + "; indentation strings {tab,space,a,newline}^<=" + ("7" if t == "quick" else "9") + " in an if-block; diagnostics family: 334 snippets x 12 contexts + first " + ("8" if t == "quick" else "16") + " identifiers x 6 shapes x 2 contexts x 2 entry points; nasty_ff^<=" + ("3" if t == "quick" else "4") + " inside a multi-line string / f-string / bracket followed by an error" for t in ("quick", "thorough")}
 ASSUMPTIONS = ["lines are split at '\\n' only; a trailing '\\r' of a CRLF line is not counted in the line length"]
 
-LIFT_PRE = ["", "x = 1\n", "x = '''a\nb'''\n", "\n# c\n"]
+LIFT_PRE = ["", "x = 1\n", "x = '''a\nb'''\n", "\n# c\n", "a = f'{x=}'\n", "print(f'''{x=\n}''', f'{y = }')\n\n"]
 LIFT_POST = ["", "y = 2\n"]
+
+# operand shapes for the diagnostics family: an operand that spans lines, whose last line is longer than its first
+_PAD = " " * 24
+SHAPES = ["({N},\n" + _PAD + "c)", "{N}.\\\n" + _PAD + "attr", "'''s\n" + _PAD + "t'''", "{N}(\n" + _PAD + "x)", "[\n\n {N}]", "{N}  # c"]
+_IDENT = re.compile(r"(?<![\w'\"$.])[A-Za-z_]\w*(?![\w'\"(])")
 
 
 def units(tier: str) -> list[tuple]:
@@ -36,6 +49,12 @@ def units(tier: str) -> list[tuple]:
         for u in tokspace.units(v, n):
             us.append(("lift",) + u)
     us.append(("gated",))
+    from ..explore import corpus
+
+    ne = len(corpus.error_snippets())
+    step = 8
+    for lo in range(0, ne, step):
+        us.append(("diag", lo, min(ne, lo + step), 8 if tier == "quick" else 16))
     from ..explore import charspace
 
     q = tier == "quick"
@@ -72,6 +91,19 @@ def cases(unit: tuple):
         for s, _ in tokspace.expand(unit[1:]):
             for t in lift(s):
                 yield t, "exec"
+    elif unit[0] == "diag":
+        from ..explore import corpus
+
+        for snip in corpus.error_snippets()[unit[1] : unit[2]]:
+            for pre in LIFT_PRE:
+                for post in LIFT_POST:
+                    yield {"src": pre + snip + post, "mode": "exec", "file": True}
+            spots = [m for m in _IDENT.finditer(snip) if not keyword.iskeyword(m.group()) and m.group() not in keyword.softkwlist]
+            for m in spots[: unit[3]]:
+                for shape in SHAPES:
+                    v = snip[: m.start()] + shape.replace("{N}", m.group()) + snip[m.end() :]
+                    yield {"src": v, "mode": "exec", "file": True}
+                    yield {"src": LIFT_PRE[4] + v + "y = 2\n", "mode": "exec", "file": True}
     elif unit[0] == "gated":
         for s in GATED:
             for v in ((3, 8), (3, 9), (3, 10), (3, 11), (3, 12)):
@@ -116,6 +148,39 @@ def check_case(case: Any, acc: Any) -> None:
         if opts:
             c["py_version"] = list(opts["py_version"])
         acc.violation(r[0] + " @" + _where(e), c, r[1])
+        return
+    if isinstance(case, dict) and case.get("file"):
+        # the same text through parse_file: the error must be as well-formed there
+        ef = _file_error(src)
+        acc.ran()
+        acc.count("file:" + type(ef).__name__)
+        if isinstance(ef, SyntaxError):
+            r = errshape.check(ef, src)
+            if r is not None:
+                acc.violation(r[0] + " [parse_file] @" + _where(ef), {"src": src, "mode": mode, "file": True}, r[1])
+
+
+_TMP: str | None = None
+
+
+def _file_error(src: str) -> BaseException | None:
+    global _TMP
+    from peg_parser.parser import XonshParser
+
+    if _TMP is None:
+        _TMP = tempfile.mkdtemp(prefix="xpmc-c11-", dir="/dev/shm" if os.path.isdir("/dev/shm") else None)
+        import atexit
+        import shutil
+
+        atexit.register(shutil.rmtree, _TMP, True)
+    p = os.path.join(_TMP, f"f{os.getpid()}.py")
+    with open(p, "w", encoding="utf-8", newline="") as f:
+        f.write(src)
+    try:
+        XonshParser.parse_file(pathlib.Path(p))
+    except BaseException as e:  # noqa: BLE001
+        return e
+    return None
 
 
 def _where(e: BaseException) -> str:
